@@ -718,13 +718,26 @@ def dup_worker(payload: Tuple[Any, ...]) -> Dict[str, Any]:
     use_local()
     root = fresh_dir(_fixed_len_name(f"c14-dup-{order}"))
     t = create_table(root, schema())
-    t.append_records([row(i) for i in range(0, 4)])
-    t.append_records([row(i) for i in range(10, 14)])
-    dfs = t._get_all_data_files()
-    bare = dataclasses.replace(dfs[0], checksum=None, lower_bounds=None, upper_bounds=None,
-                               file_path=("/" + dfs[0].file_path.lstrip("/")) if order == "slash" else dfs[0].file_path)
-    with t.new_transaction() as tx:
-        tx.append_files([bare])
+    if order == "after_partial_delete":
+        # the file under test SURVIVES a partial delete: its manifest is rewritten and must carry the checksum over
+        with t.new_transaction() as tx:
+            tx.append_data([row(i) for i in range(20, 24)])
+            tx.append_data([row(i) for i in range(0, 4)])
+            tx.append_data([row(i) for i in range(10, 14)])
+        first = t._get_all_data_files()[0].file_path
+        with t.new_transaction() as tx:
+            tx.delete_files([first])
+        dfs = t._get_all_data_files()
+        if len(dfs) != 2:
+            raise HarnessError("partial delete did not leave two files")
+    else:
+        t.append_records([row(i) for i in range(0, 4)])
+        t.append_records([row(i) for i in range(10, 14)])
+        dfs = t._get_all_data_files()
+        bare = dataclasses.replace(dfs[0], checksum=None, lower_bounds=None, upper_bounds=None,
+                                   file_path=("/" + dfs[0].file_path.lstrip("/")) if order == "slash" else dfs[0].file_path)
+        with t.new_transaction() as tx:
+            tx.append_files([bare])
     t = load_table(root)
     view = reader.LocalView(root)
     rel = dfs[0].file_path.lstrip("/")
@@ -753,7 +766,8 @@ def dup_worker(payload: Tuple[Any, ...]) -> Dict[str, Any]:
             rep.nontrivial(("dup", order, spec, api, v))
             if out[0] == "ok":
                 rep.violation({"backend": "local", "file_class": "data", "damage": damage_name(spec), "api": "all",
-                               "verify": "on", "problem": "altered_bytes_not_detected_for_a_file_registered_twice"},
+                               "verify": "on", "problem": ("altered_bytes_not_detected_for_a_file_that_survived_a_partial_delete" if order == "after_partial_delete"
+                                           else "altered_bytes_not_detected_for_a_file_registered_twice")},
                               {"registration_order": order, "spec": list(spec), "api": api, "verify": str(v),
                                "returned_equals_undamaged": out[1] == want[api]})
     with open(os.path.join(root, rel), "wb") as f:
@@ -840,7 +854,7 @@ def run(tier: str, seed: int) -> Report:
     for key, det, cnt in collapse(fails):
         rep.violation(key, det)
         rep.violations[json.dumps(key, sort_keys=True)]["count"] = cnt
-    for part in pmap("checks.c14", "dup_worker", [(tier, seed, o) for o in ("same", "slash")]):
+    for part in pmap("checks.c14", "dup_worker", [(tier, seed, o) for o in ("same", "slash", "after_partial_delete")]):
         rep.merge(part)
     for part in pmap("checks.c14", "midcall_worker", [(tier, seed)]):
         rep.merge(part)
